@@ -188,5 +188,7 @@ structure Program where
   poolsOk : Bool := true      -- pools needed by the DAG are registered and alive (`DAG._validate_pool_executors`)
   /-- how many times the collaborators suspend (bare `await asyncio.sleep(0)`) inside the given callback -/
   cbYield : Cb → Node → Nat := fun _ _ => 0
+  /-- a collaborator that fails: the given callback raises this exception (every time, before suspending) -/
+  cbRaise : Cb → Node → Option Exc := fun _ _ => none
 
 end MLPE
